@@ -9,9 +9,11 @@
 //     afterwards lists what remains (cache dropped);
 //   * copy-assignment onto a tree whose cache is filled gives the source's range;
 //   * explicit initialize_filtration() / initialize_filtration(true) over an existing cache, and after assign_filtration;
+//   * extend_filtration over an existing cache: 2n+1 simplices, the range is a valid filtration of exactly those;
 //   * move construction / assignment: target lists the source's range, the moved-from tree lists exactly what it holds.
 // usage: simplex_tree_sweep <seed> <samples-per-complex>    prints one JSON line
 #include <gudhi/Simplex_tree.h>
+#include <type_traits>
 #include <algorithm>
 #include <csignal>
 #include <cstdio>
@@ -36,6 +38,12 @@ static bool rlo(unsigned a, unsigned b) { for (int v = 3; v >= 0; v--) { bool x 
   std::vector<int> wa, wb; for (int v = 3; v >= 0; v--) { if (a >> v & 1) wa.push_back(v); if (b >> v & 1) wb.push_back(v); }
   size_t i = 0; while (i < wa.size() && i < wb.size()) { if (wa[i] != wb[i]) return wa[i] < wb[i]; ++i; } return i == wa.size() && i != wb.size(); }
 template <class ST> static std::vector<unsigned> range_of(ST& st) { std::vector<unsigned> r; for (auto sh : st.filtration_simplex_range()) { unsigned m = 0; for (auto v : st.simplex_vertex_range(sh)) m |= 1u << v; r.push_back(m); } return r; }
+// any filtration range must list every simplex of the tree exactly once, never decrease, and put faces first
+template <class ST> static std::string range_defect(ST& st) { std::vector<unsigned> r = range_of(st); if (r.size() != st.num_simplices()) return "lists " + std::to_string(r.size()) + " simplices, the tree holds " + std::to_string(st.num_simplices());
+  std::map<unsigned, size_t> pos; for (size_t k = 0; k < r.size(); k++) { if (pos.count(r[k])) return "lists a simplex twice"; pos[r[k]] = k; }
+  size_t k = 0; double prev = 0; for (auto sh : st.filtration_simplex_range()) { double f = (double)st.filtration(sh); if (k && f < prev) return "decreases at rank " + std::to_string(k); prev = f; ++k; }
+  for (auto& kv : pos) for (unsigned sub = (kv.first - 1) & kv.first; sub; sub = (sub - 1) & kv.first) { auto it = pos.find(sub); if (it == pos.end()) return "lists a simplex without one of its faces"; if (it->second > kv.second) return "lists a face after its coface"; }
+  return ""; }
 template <class ST, class V> static std::vector<unsigned> canonical(const std::map<unsigned, V>& f) { std::vector<unsigned> r; for (auto& kv : f) r.push_back(kv.first);
   std::sort(r.begin(), r.end(), [&](unsigned a, unsigned b) { if (f.at(a) != f.at(b)) return f.at(a) < f.at(b); return rlo(a, b); }); return r; }
 template <class Opt> static void one(const std::vector<unsigned>& K, unsigned long long& rng, int samples, const char* oname) {
@@ -85,6 +93,11 @@ template <class Opt> static void one(const std::vector<unsigned>& K, unsigned lo
       unsigned top = 0; for (unsigned m : K) { bool maximal = true; for (unsigned sg : K) if (sg != m && (sg & m) == m) maximal = false; if (maximal) top = m; }
       std::map<unsigned, V> up = mono; up[top] = (V)5; r.assign_filtration(r.find(from_mask(top)), (V)5); r.initialize_filtration(); ++total;
       if (range_of(r) != canonical<ST, V>(up)) fail(tag + ": after assign_filtration + initialize_filtration() the range is not the canonical one of the new values"); }
+    // (7) extend_filtration over an existing cache (floating-point values only): the cone filtration has 2n+1 simplices and
+    //     the range afterwards is a valid filtration of exactly those
+    if constexpr (std::is_floating_point<V>::value) { ST x = a; (void)range_of(x); x.extend_filtration(); ++total;
+      if (x.num_simplices() != 2 * K.size() + 1) fail(tag + ": extend_filtration gives " + std::to_string(x.num_simplices()) + " simplices, the cone on " + std::to_string(K.size()) + " simplices has " + std::to_string(2 * K.size() + 1));
+      else { std::string d = range_defect(x); if (!d.empty()) fail(tag + ": after extend_filtration over an existing cache the filtration range " + d); } }
     // (6) move: the target lists the source's range; the moved-from tree lists exactly its own (no) simplices and can be reused
     { ST g = a; (void)range_of(g); ST h(std::move(g)); ++total;
       if (range_of(h) != want) fail(tag + ": after move construction the target's filtration range is not the source's");
